@@ -22,7 +22,16 @@ Streams
              do not read), trajectories without any measured size, integer / float32 `size` and
              positions, object / int32 / float / categorical / string labels, negative and
              non-contiguous frame numbers, extra columns whose names clash with index level names,
-             tables carrying `attrs`; every index layout.  Direct oracle from the statement in
+             tables carrying `attrs`; tables that CARRY columns the filters must not read: columns
+             written by other stages (cluster, cluster_size, proximity, ep, size_x, size_y, raw_mass,
+             signal, ecc, dx, dr, direction), columns whose names contain / extend 'size',
+             'particle', 'frame' (size_std, sizes, particle_old, _old_particle, frame_orig, ...)
+             with values that look like sizes / labels / frame numbers, columns of non-numeric
+             dtype (str, bool, categorical, datetime, timedelta, mixed object), the columns in any
+             order; tables that went through a consumer stage which returns a table (the real
+             tp.cluster; tp.proximity / tp.relate_frames merged back row by row) before the
+             filter; every index layout.  Direct oracle from the statement, computed from the
+             `size` / `particle` / `frame` columns ALONE, in
              exact arithmetic (for NaN sizes BOTH readings of "mean size" are accepted, see
              ASSUMPTIONS), values and dtypes of the returned rows unchanged, the caller's table
              (values, index, columns, dtypes, attrs) unchanged, and the same call on the same data
@@ -35,6 +44,11 @@ Streams
              statement's direct oracle (filters) and (ii) the same stage on the same data in a
              freshly built plain default-indexed DataFrame (partitions for link / link_partial);
              after every step every live table of the caller must be unmodified (attrs included).
+             The tables carry the same extra-column classes as in filterx, and the consumer stages
+             that RETURN a table (cluster; proximity / relate_frames merged back by the caller) are
+             registers too: their tables flow through producers into the filters (family
+             `carried`), where the direct oracle (from `size` / `particle` / `frame` alone, every
+             other column unchanged) applies.
 """
 import itertools
 import json
@@ -57,10 +71,15 @@ RULE = ("table stream: 1 case = 12 stages x 10 layout classes x 5 representative
         "<=3) started from every initial layout, all 12 stages applied after every prefix.  "
         "filterx stream: the filter tables with NaN/inf sizes and masses, unmeasured trajectories, "
         "int/float32 sizes and positions, object/int32/float/categorical/string labels, negative and "
-        "non-contiguous frames, clashing extra columns, attrs; cuts on the 1/16 grid next to the "
-        "trajectory means; session stream: 3-10 step programs over registers in 4 families "
+        "non-contiguous frames, clashing extra columns, attrs, carried columns (60% of the tables: "
+        "1-4 columns named like other stages' outputs or containing 'size'/'particle'/'frame', "
+        "size-/label-/frame-like or non-numeric values), permuted column order (25%), 30% of the "
+        "tables passed through the real cluster / merged-back proximity / relate_frames first; "
+        "cuts on the 1/16 grid next to the "
+        "trajectory means; session stream: 3-10 step programs over registers in 5 families "
         "(revisit: A(T); U=B(T); A(U) for all 12x5 (A,B); twice; feedback; random DAG biased to "
-        "re-used sources).  "
+        "re-used sources; carried: T -> [producer] -> cluster / proximity_merged / relate_merged "
+        "-> producers -> filters), results of cluster and of the merges are registers.  "
         "Non-trivial = filter case that both keeps and drops a trajectory / pipeline case with >=2 "
         "accepted producer steps and >=8 consumer comparisons / session with >=3 executed steps and "
         ">=1 table object used more than once; distinct = distinct canonical input.")
@@ -99,6 +118,15 @@ ASSUMPTIONS = [
     "session: a rejection / other numbers on the INITIAL table (not returned by a stage) counts only "
     "for the filters (exactness is claimed for all tables); for the other stages it is a counter, as "
     "in the pipeline stream",
+    "a table that comes out of cluster or of a caller-side merge of proximity / relate_frames is not "
+    "'returned by a trajectory-producing stage' in the statement's list: like the initial table it is "
+    "in scope for the filters (exact on ALL tables, judged by the direct oracle from size / particle "
+    "/ frame alone, all other columns unchanged); for the other stages a rejection / other numbers on "
+    "it is a counter; once a producer has returned a table derived from it the full statement applies",
+    "carried columns are never named 'z' (guess_pos_columns reads it as a coordinate) nor 'x_b'/'y_b' "
+    "(relate_frames' join suffix); the merged-back proximity / relate_frames columns are attached by "
+    "the harness (row order of tp.proximity's result follows the input rows; relate_frames' "
+    "displacements are looked up by label, skipped when a label occurs twice in a frame)",
     "categorical and string labels only in filterx: compute_drift / subtract_drift (Series.diff on the "
     "labels) and link_partial (writes integer ids into the label column) reject them on the plain "
     "default-indexed table as well (degenerate by the rule above); integer positions only in "
@@ -1378,12 +1406,16 @@ def fresh_table(t):
     for j, c in enumerate(cols):
         col = t.iloc[:, j]
         if isinstance(col.dtype, np.dtype):
-            data[c] = np.array(col.to_numpy(), copy=True)
+            # dtype given explicitly: pandas 3 infers `str` for an object array that happens to
+            # hold only strings (an object column of which a filter kept the string rows)
+            data[c] = P.Series(np.array(col.to_numpy(), copy=True), dtype=col.dtype)
         else:
             data[c] = col.array.copy()
     f = P.DataFrame(data, columns=cols)
     if f.attrs or not isinstance(f.index, P.RangeIndex):
         raise RuntimeError("fresh table is not plain")
+    if [str(d) for d in f.dtypes] != [str(d) for d in t.dtypes]:
+        raise RuntimeError("fresh table changed dtypes: %s -> %s" % (list(t.dtypes), list(f.dtypes)))
     return f
 
 
